@@ -1,28 +1,380 @@
 package main
 
-import "time"
+import (
+	"context"
+	"encoding/json"
+	"fmt"
+	"os"
+	"os/exec"
+	"path/filepath"
+	"regexp"
+	"sort"
+	"strconv"
+	"strings"
+	"sync"
+	"time"
+)
 
 // C11 – no externally supplied bytes can crash a station or registrar process.
+//
+// Thirteen driver stages (one per repository package that owns an external entry point), each a
+// child process running the seeded structure-aware generator against the real entry points with
+// per-case panic capture, a crash-surviving flight recorder and a per-input watchdog.  The stages are
+// independent processes, so this property runs them four at a time (from Post, each with a private
+// RunCtx that is merged afterwards; the orchestrator's stage machinery itself is used unchanged).
+// In the thorough tier Go's coverage-guided native fuzzer is then run on a scratch copy of the
+// repository (outside /repo and /verif, removed afterwards) from the generator's own corpus; every
+// input it finds is re-run through the normal driver path against the repository itself before it
+// is reported.
+
+var c11Stages = []Stage{
+	{Name: "lib", Pkg: "./pkg/station/lib", Run: "^TestVerifC11Lib$", Drivers: []string{"lib"}, Exports: []string{"lib", "cdtls", "dnat"}, Netns: true},
+	{Name: "app", Dir: "cmd/application", Pkg: ".", Run: "^TestVerifC11Handler$", Drivers: []string{"app"}, Exports: []string{"lib"}},
+	{Name: "apireg", Pkg: "./pkg/regserver/apiregserver", Run: "^TestVerifC11API$", Drivers: []string{"apireg"}, Exports: []string{"regproc"}},
+	{Name: "dnsreg", Pkg: "./pkg/regserver/dnsregserver", Run: "^TestVerifC11DNS$", Drivers: []string{"dnsreg"}, Exports: []string{"regproc", "responder"}},
+	{Name: "regproc", Pkg: "./pkg/regserver/regprocessor", Run: "^TestVerifC11Regproc$", Drivers: []string{"regproc"}, Exports: []string{"lib"}},
+	{Name: "responder", Pkg: "./pkg/registrars/dns-registrar/responder", Run: "^TestVerifC11Responder$", Drivers: []string{"responder"}},
+	{Name: "transports", Pkg: "./pkg/transports", Run: "^TestVerifC11Transports$", Drivers: []string{"transports"}},
+	{Name: "wiredns", Pkg: "./pkg/registrars/dns-registrar/dns", Run: "^TestVerifC11DNSWire$", Drivers: []string{"dns"}},
+	{Name: "cdtls", Pkg: "./pkg/transports/connecting/dtls", Run: "^TestVerifC11Params$", Drivers: []string{"cdtls"}, Exports: []string{"dnat"}, Netns: true},
+	{Name: "prefix", Pkg: "./pkg/transports/wrapping/prefix", Run: "^TestVerifC11Params$", Drivers: []string{"prefix"}},
+	{Name: "min", Pkg: "./pkg/transports/wrapping/min", Run: "^TestVerifC11Params$", Drivers: []string{"min"}},
+	{Name: "obfs4", Pkg: "./pkg/transports/wrapping/obfs4", Run: "^TestVerifC11Params$", Drivers: []string{"obfs4"}},
+	{Name: "msgformat", Pkg: "./pkg/registrars/dns-registrar/msgformat", Run: "^TestVerifC11Msgformat$", Drivers: []string{"msgformat"}},
+}
+
+// c11Fuzz is one coverage-guided target: a Fuzz function of a driver file and the entry point whose
+// signature its findings carry.  Execs is the execution-count bound (-fuzztime=Nx).
+type c11Fuzz struct {
+	Stage, Func, Entry string
+	Execs              int
+}
+
+var c11FuzzTargets = []c11Fuzz{
+	{"wiredns", "FuzzVerifC11DNSMessage", "dns.MessageFromWireFormat", 2000000},
+	{"wiredns", "FuzzVerifC11DNSTXT", "dns.DecodeRDataTXT", 2000000},
+	{"msgformat", "FuzzVerifC11Msgformat", "msgformat.RemoveRequestFormat/RemoveResponseFormat", 2000000},
+	{"transports", "FuzzVerifC11UnmarshalAny", "transports.UnmarshalAnypbTo", 2000000},
+	{"transports", "FuzzVerifC11TryReveal", "transports.Obfuscator.TryReveal", 1000000},
+	{"min", "FuzzVerifC11ParamsMin", "min.ParseParams", 2000000},
+	{"obfs4", "FuzzVerifC11ParamsObfs4", "obfs4.ParseParams", 2000000},
+	{"prefix", "FuzzVerifC11ParamsPrefix", "prefix.ParseParams", 2000000},
+	{"cdtls", "FuzzVerifC11ParamsDTLS", "dtls.ParseParams", 2000000},
+	{"responder", "FuzzVerifC11Responder", "responder.RecvAndRespond", 1000000},
+	{"regproc", "FuzzVerifC11Regproc", "regprocessor.RegisterBidirectional/Unidirectional", 1000000},
+	{"dnsreg", "FuzzVerifC11DNS", "dnsregserver.processRequest", 1000000},
+	{"apireg", "FuzzVerifC11APIBidirectional", "apiregserver.registerBidirectional", 1000000},
+	{"apireg", "FuzzVerifC11APIRegister", "apiregserver.register", 1000000},
+	{"lib", "FuzzVerifC11Lib", "station.parseRegMessage+ingestRegistration", 1000000},
+	{"app", "FuzzVerifC11WrapMin", "min.WrapConnection", 1000000},
+	{"app", "FuzzVerifC11WrapPrefix", "prefix.WrapConnection", 500000},
+	{"app", "FuzzVerifC11WrapObfs4", "obfs4.WrapConnection", 500000},
+	{"app", "FuzzVerifC11Handler", "application.handleNewTCPConn", 500000},
+}
+
 func init() {
 	driverPkg["export/dnat"] = "pkg/dtls/dnat"
 	driverPkg["export/responder"] = "pkg/registrars/dns-registrar/responder"
+	for i := range c11Stages {
+		c11Stages[i].TimeoutQ, c11Stages[i].TimeoutT = 15*time.Minute, 60*time.Minute
+	}
 	register(&Prop{
-		ID: "C11", Level: "exploration", Floor: 100000,
-		Rule: "TODO",
-		Stages: []Stage{
-			{Name: "lib", Pkg: "./pkg/station/lib", Run: "^TestVerifC11Lib$", Drivers: []string{"lib"}, Exports: []string{"lib", "cdtls", "dnat"}, Netns: true, TimeoutQ: 10 * time.Minute, TimeoutT: 40 * time.Minute},
-			{Name: "regproc", Pkg: "./pkg/regserver/regprocessor", Run: "^TestVerifC11Regproc$", Drivers: []string{"regproc"}, Exports: []string{"lib"}, TimeoutQ: 10 * time.Minute, TimeoutT: 40 * time.Minute},
-			{Name: "apireg", Pkg: "./pkg/regserver/apiregserver", Run: "^TestVerifC11API$", Drivers: []string{"apireg"}, Exports: []string{"regproc"}, TimeoutQ: 10 * time.Minute, TimeoutT: 40 * time.Minute},
-			{Name: "dnsreg", Pkg: "./pkg/regserver/dnsregserver", Run: "^TestVerifC11DNS$", Drivers: []string{"dnsreg"}, Exports: []string{"regproc", "responder"}, TimeoutQ: 10 * time.Minute, TimeoutT: 40 * time.Minute},
-			{Name: "app", Dir: "cmd/application", Pkg: ".", Run: "^TestVerifC11Handler$", Drivers: []string{"app"}, Exports: []string{"lib"}, TimeoutQ: 10 * time.Minute, TimeoutT: 60 * time.Minute},
-			{Name: "min", Pkg: "./pkg/transports/wrapping/min", Run: "^TestVerifC11Params$", Drivers: []string{"min"}, TimeoutQ: 10 * time.Minute, TimeoutT: 40 * time.Minute},
-			{Name: "obfs4", Pkg: "./pkg/transports/wrapping/obfs4", Run: "^TestVerifC11Params$", Drivers: []string{"obfs4"}, TimeoutQ: 10 * time.Minute, TimeoutT: 40 * time.Minute},
-			{Name: "prefix", Pkg: "./pkg/transports/wrapping/prefix", Run: "^TestVerifC11Params$", Drivers: []string{"prefix"}, TimeoutQ: 10 * time.Minute, TimeoutT: 40 * time.Minute},
-			{Name: "cdtls", Pkg: "./pkg/transports/connecting/dtls", Run: "^TestVerifC11Params$", Drivers: []string{"cdtls"}, Exports: []string{"dnat"}, Netns: true, TimeoutQ: 10 * time.Minute, TimeoutT: 40 * time.Minute},
-			{Name: "transports", Pkg: "./pkg/transports", Run: "^TestVerifC11Transports$", Drivers: []string{"transports"}, TimeoutQ: 10 * time.Minute, TimeoutT: 40 * time.Minute},
-			{Name: "msgformat", Pkg: "./pkg/registrars/dns-registrar/msgformat", Run: "^TestVerifC11Msgformat$", Drivers: []string{"msgformat"}, TimeoutQ: 10 * time.Minute, TimeoutT: 40 * time.Minute},
-			{Name: "dns", Pkg: "./pkg/registrars/dns-registrar/dns", Run: "^TestVerifC11DNSWire$", Drivers: []string{"dns"}, TimeoutQ: 10 * time.Minute, TimeoutT: 40 * time.Minute},
-			{Name: "responder", Pkg: "./pkg/registrars/dns-registrar/responder", Run: "^TestVerifC11Responder$", Drivers: []string{"responder"}, TimeoutQ: 10 * time.Minute, TimeoutT: 40 * time.Minute},
+		ID: "C11", Level: "exploration", Floor: 400000,
+		Rule: "a case = one byte string handed to one external entry point of the real code (ZMQ registration message -> parseRegMessage + ingestRegistration with " +
+			"min/obfs4/prefix/DTLS enabled; first flight -> handleNewTCPConn and each transport's WrapConnection with registrations present; HTTP request -> " +
+			"register / registerBidirectional behind a real net/http server; Noise-encrypted DNS request -> processRequest behind the real RecvAndRespond on UDP; " +
+			"decoded wrapper -> RegisterBidirectional / RegisterUnidirectional / processBdReq / processC2SWrapper; (library version, Any) -> every transport's " +
+			"station- and client-side ParseParams; datagram -> the responder's packet handling; DNS wire format, TXT RDATA and length framing decoders; obfuscated " +
+			"tags -> TryReveal), produced by the seeded generator as a pure function of (seed, entry point, case index): valid protobufs with exactly one to three " +
+			"things wrong, protobufs with every sub-message independently absent / empty / wrong-length / out-of-range / mistyped, raw mutations of valid " +
+			"encodings (bit flips, truncations, splices, length-field tampering) and random bytes; evaluations = cases executed to completion under the oracle " +
+			"(no panic in any goroutine, return within the per-input watchdog, an HTTP status line); distinct_nontrivial = distinct (entry point, generator " +
+			"descriptor, outcome class) triples over non-empty inputs; thorough additionally counts coverage-guided fuzz executions per target (fuzz_executions)",
+		Assumptions: []string{
+			"operator-supplied configuration is fixed and valid (test phantom subnets, override subnets with known prefix ids, a ConnectingStats sink): configuration-only panics are C19's subject",
+			"stand-ins: liveness stub, fake Redis, /dev/null as the tun device, loopback DTLS listener on a random port, DNS resolver that fails at once, recorder instead of the ZMQ socket; no MaxMind database exists here, so GeoIP lookups run against the empty database only",
+			"a panic in a goroutine the code under test starts ends the child process and with it the stage: it is reported with the in-flight inputs from the flight recorder, the remaining cases of that stage are not executed",
+			"a hang is reported only when the single input does not return within 60 s when re-run alone; a watchdog that fires without that is recorded as inconclusive",
+			"the station's connection handler sleeps 5-10 s by design after a transport error; flights that trigger it are generated sparingly and excluded from the handler's fuzz target (they go to the WrapConnection targets)",
+			"absence of findings after N executions is not absence of crashes",
 		},
+		Post: c11Post,
 	})
+}
+
+func c11Sub(rc *RunCtx) *RunCtx {
+	return &RunCtx{Prop: rc.Prop, Tier: rc.Tier, Seed: rc.Seed, Only: rc.Only, Keep: rc.Keep, Start: rc.Start, Work: rc.Work, Extra: map[string]interface{}{}}
+}
+
+func c11Merge(rc, sub *RunCtx) {
+	rc.Violations = append(rc.Violations, sub.Violations...)
+	rc.Errors = append(rc.Errors, sub.Errors...)
+	rc.Incon = append(rc.Incon, sub.Incon...)
+	rc.Samples = append(rc.Samples, sub.Samples...)
+	rc.Exhaustive = append(rc.Exhaustive, sub.Exhaustive...)
+	rc.Notes = append(rc.Notes, sub.Notes...)
+	rc.StageInfo = append(rc.StageInfo, sub.StageInfo...)
+	for k, v := range sub.Counts {
+		rc.addCount(k, v)
+	}
+	for k, v := range sub.Distinct {
+		rc.addDistinct(k, v)
+	}
+}
+
+func c11Post(rc *RunCtx) {
+	var stages []*Stage
+	for i := range c11Stages {
+		if rc.Only != "" && !strings.Contains(c11Stages[i].Name, rc.Only) {
+			continue
+		}
+		stages = append(stages, &c11Stages[i])
+	}
+	// ---- the generator stages, four child processes at a time -----------------------------------
+	subs := make([]*RunCtx, len(stages))
+	sem := make(chan struct{}, 4)
+	var wg sync.WaitGroup
+	for i, st := range stages {
+		wg.Add(1)
+		go func(i int, st *Stage) {
+			defer wg.Done()
+			sem <- struct{}{}
+			defer func() { <-sem }()
+			subs[i] = c11Sub(rc)
+			subs[i].runStage(st)
+		}(i, st)
+	}
+	wg.Wait()
+	for _, s := range subs {
+		c11Merge(rc, s)
+	}
+	// one written-out sample per monitor first, so that the 12 kept in the evidence span the entry points
+	sort.SliceStable(rc.Samples, func(i, j int) bool { return c11SampleRank(rc.Samples, i) < c11SampleRank(rc.Samples, j) })
+	if !rc.thorough() || len(rc.Errors) > 0 {
+		return
+	}
+	c11FuzzPhase(rc, stages)
+}
+
+func c11SampleRank(s []interface{}, i int) int {
+	mon := fmt.Sprint(s[i].(map[string]interface{})["monitor"])
+	n := 0
+	for j := 0; j < i; j++ {
+		if fmt.Sprint(s[j].(map[string]interface{})["monitor"]) == mon {
+			n++
+		}
+	}
+	return n
+}
+
+// ---- coverage-guided phase (thorough) ---------------------------------------------------------------
+
+var c11ExecsRe = regexp.MustCompile(`execs: (\d+) `)
+
+func c11Sanitize(s string) string { return regexp.MustCompile(`[^A-Za-z0-9_.-]`).ReplaceAllString(s, "_") }
+
+func c11CopyFile(src, dst string) error {
+	b, err := os.ReadFile(src)
+	if err != nil {
+		return err
+	}
+	if err := os.MkdirAll(filepath.Dir(dst), 0o755); err != nil {
+		return err
+	}
+	return os.WriteFile(dst, b, 0o644)
+}
+
+// c11DecodeCorpusFile reads a "go test fuzz v1" file holding one []byte value.
+func c11DecodeCorpusFile(path string) ([]byte, bool) {
+	b, err := os.ReadFile(path)
+	if err != nil {
+		return nil, false
+	}
+	lines := strings.Split(strings.TrimSpace(string(b)), "\n")
+	if len(lines) < 2 || !strings.HasPrefix(lines[0], "go test fuzz v1") {
+		return nil, false
+	}
+	l := strings.TrimSpace(lines[1])
+	if !strings.HasPrefix(l, "[]byte(") || !strings.HasSuffix(l, ")") {
+		return nil, false
+	}
+	s, err := strconv.Unquote(l[len("[]byte(") : len(l)-1])
+	if err != nil {
+		return nil, false
+	}
+	return []byte(s), true
+}
+
+func c11FuzzPhase(rc *RunCtx, stages []*Stage) {
+	byName := map[string]*Stage{}
+	for _, st := range stages {
+		byName[st.Name] = st
+	}
+	scratch, err := os.MkdirTemp("/tmp", "verif-c11-")
+	if err != nil {
+		rc.Errors = append(rc.Errors, "fuzz phase: cannot create the scratch directory: "+err.Error())
+		return
+	}
+	defer os.RemoveAll(scratch)
+	if out, err := exec.Command("rsync", "-a", "--exclude", ".git", repoDir+"/", scratch+"/").CombinedOutput(); err != nil {
+		rc.Errors = append(rc.Errors, fmt.Sprintf("fuzz phase: rsync of the repository failed: %v %s", err, out))
+		return
+	}
+	// the overlay of every stage becomes real files in the copy (the fuzzer writes crashers next to the package)
+	for _, st := range stages {
+		ov, err := rc.overlay(st)
+		if err != nil {
+			rc.Errors = append(rc.Errors, "fuzz phase: "+err.Error())
+			return
+		}
+		var m struct{ Replace map[string]string }
+		b, _ := os.ReadFile(ov)
+		json.Unmarshal(b, &m)
+		for dst, src := range m.Replace {
+			if err := c11CopyFile(src, filepath.Join(scratch, strings.TrimPrefix(dst, repoDir))); err != nil {
+				rc.Errors = append(rc.Errors, "fuzz phase: "+err.Error())
+				return
+			}
+		}
+	}
+	fuzzOut := filepath.Join(rc.Work, "fuzz-found")
+	replay := filepath.Join(rc.Work, "fuzz-replay")
+	os.MkdirAll(fuzzOut, 0o755)
+
+	// build one instrumented binary per stage that has targets
+	bins := map[string]string{}
+	var mu sync.Mutex
+	var wg sync.WaitGroup
+	sem := make(chan struct{}, 3)
+	for _, st := range stages {
+		has := false
+		for _, ft := range c11FuzzTargets {
+			if ft.Stage == st.Name {
+				has = true
+			}
+		}
+		if !has {
+			continue
+		}
+		wg.Add(1)
+		go func(st *Stage) {
+			defer wg.Done()
+			sem <- struct{}{}
+			defer func() { <-sem }()
+			bin := filepath.Join(rc.Work, st.Name+".fuzz.test")
+			cmd := exec.Command("go", "test", "-c", "-tags", "verif", "-vet=off", "-fuzz", "^FuzzVerifC11", "-o", bin, st.Pkg)
+			cmd.Dir = filepath.Join(scratch, st.Dir)
+			cmd.Env = baseEnv()
+			out, err := cmd.CombinedOutput()
+			mu.Lock()
+			defer mu.Unlock()
+			if err != nil {
+				rc.Errors = append(rc.Errors, fmt.Sprintf("fuzz phase: instrumented build of %s failed (infrastructure): %v\n%s", st.Name, err, tail(string(out), 2000)))
+				return
+			}
+			bins[st.Name] = bin
+		}(st)
+	}
+	wg.Wait()
+	if len(rc.Errors) > 0 {
+		return
+	}
+
+	// run the targets, three at a time, four fuzz workers each
+	scale := 1.0
+	if s := os.Getenv("VERIF_C11_FUZZ_SCALE"); s != "" {
+		if v, err := strconv.ParseFloat(s, 64); err == nil && v > 0 {
+			scale = v
+		}
+	}
+	for _, ft := range c11FuzzTargets {
+		st, ok := byName[ft.Stage]
+		if !ok {
+			continue
+		}
+		wg.Add(1)
+		go func(ft c11Fuzz, st *Stage) {
+			defer wg.Done()
+			sem <- struct{}{}
+			defer func() { <-sem }()
+			n := int(float64(ft.Execs) * scale)
+			pkgDir := filepath.Join(scratch, st.Dir, strings.TrimPrefix(st.Pkg, "./"))
+			cache := filepath.Join(rc.Work, "fuzzcache-"+ft.Func)
+			os.MkdirAll(cache, 0o755)
+			ctx, cancel := context.WithTimeout(context.Background(), 12*time.Minute)
+			defer cancel()
+			args := []string{"-test.run", "^$", "-test.fuzz", "^" + ft.Func + "$", "-test.fuzztime", fmt.Sprintf("%dx", n), "-test.fuzzcachedir", cache, "-test.parallel", "4", "-test.timeout", "30m"}
+			var cmd *exec.Cmd
+			if st.Netns {
+				cmd = exec.CommandContext(ctx, "unshare", append([]string{"-n", "sh", "-c", "ip link set lo up 2>/dev/null; exec \"$0\" \"$@\"", bins[st.Name]}, args...)...)
+			} else {
+				cmd = exec.CommandContext(ctx, bins[st.Name], args...)
+			}
+			cmd.Dir = pkgDir
+			cmd.Env = append(baseEnv(), fmt.Sprintf("VERIF_SEED=%d", rc.Seed), "VERIF_TIER="+rc.Tier, "VERIF_OUT="+rc.Work, "VERIF_C11_FUZZ_OUT="+fuzzOut, "VERIF_DIR="+verifDir, "VERIF_REPO="+scratch)
+			t0 := time.Now()
+			out, err := cmd.CombinedOutput()
+			os.WriteFile(filepath.Join(rc.Work, "fuzz-"+ft.Func+".out"), out, 0o644)
+			execs := int64(0)
+			if ms := c11ExecsRe.FindAllStringSubmatch(string(out), -1); len(ms) > 0 {
+				execs, _ = strconv.ParseInt(ms[len(ms)-1][1], 10, 64)
+			}
+			mu.Lock()
+			defer mu.Unlock()
+			rc.addCount("fuzz_executions", execs)
+			rc.addCount("fuzz_executions["+ft.Entry+"]", execs)
+			rc.StageInfo = append(rc.StageInfo, map[string]interface{}{"fuzz_target": ft.Func, "entry": ft.Entry, "bound_execs": n, "execs": execs, "wall_s": time.Since(t0).Seconds(), "failed": err != nil})
+			if ctx.Err() != nil {
+				rc.Notes = append(rc.Notes, fmt.Sprintf("fuzz target %s stopped by its 12 min wall-clock cap after %d of %d executions", ft.Func, execs, n))
+			}
+			// crashers the fuzzer wrote itself (worker died / target failed): decode into the replay directory
+			files, _ := filepath.Glob(filepath.Join(pkgDir, "testdata", "fuzz", ft.Func, "*"))
+			for i, f := range files {
+				if b, ok := c11DecodeCorpusFile(f); ok {
+					c11CopyBytes(b, filepath.Join(replay, c11Sanitize(ft.Entry), fmt.Sprintf("fuzzer-crasher-%d.bin", i)))
+					rc.addCount("fuzz_crashers_written_by_the_fuzzer", 1)
+				}
+			}
+			if err != nil && len(files) == 0 && ctx.Err() == nil {
+				rc.Errors = append(rc.Errors, fmt.Sprintf("fuzz phase: target %s failed without leaving a crasher (infrastructure): %v\n%s", ft.Func, err, tail(string(out), 1500)))
+			}
+		}(ft, st)
+	}
+	wg.Wait()
+
+	// inputs on which the target recovered a panic (saved by the kit, at most 3 per signature)
+	found, _ := filepath.Glob(filepath.Join(fuzzOut, "*", "*.bin"))
+	for _, f := range found {
+		rc.addCount("fuzz_inputs_with_recovered_panic", 1)
+		c11CopyFile(f, filepath.Join(replay, filepath.Base(filepath.Dir(f)), "recovered-"+filepath.Base(f)))
+	}
+	// every finding of the fuzzer goes through the normal driver path, against the repository itself
+	entries, _ := os.ReadDir(replay)
+	if len(entries) == 0 {
+		return
+	}
+	need := map[string]bool{}
+	for _, e := range entries {
+		for _, ft := range c11FuzzTargets {
+			if c11Sanitize(ft.Entry) == e.Name() {
+				need[ft.Stage] = true
+			}
+		}
+	}
+	for _, st := range stages {
+		if !need[st.Name] {
+			continue
+		}
+		rs := *st
+		rs.Name = st.Name + "-fuzzreplay"
+		rs.Env = append(append([]string{}, st.Env...), "VERIF_C11_REPLAY="+replay)
+		sub := c11Sub(rc)
+		sub.runStage(&rs)
+		c11Merge(rc, sub)
+	}
+}
+
+func c11CopyBytes(b []byte, dst string) {
+	os.MkdirAll(filepath.Dir(dst), 0o755)
+	os.WriteFile(dst, b, 0o644)
 }
